@@ -1,9 +1,11 @@
 package s3db
 
 import (
+	"bytes"
 	"context"
 	"errors"
 	"fmt"
+	"math"
 	"strconv"
 	"strings"
 	"sync"
@@ -669,6 +671,11 @@ func (c *VirtualTable) Update(ctx context.Context, key interface{}, values map[i
 	if key == nil {
 		return errors.New("no key set")
 	}
+	if nk, assigned := values[c.KeyCol]; assigned && !c.usesRowID && !sameKeyValue(nk, key) {
+		// SQLite asks for an update in place whenever the new key merely
+		// converts to the old one (3.5 for 3, '1' for 1, NULL for 0).
+		return errors.New("changing the primary key is not implemented")
+	}
 	t := updateTime(ctx)
 	var old *v1proto.Row
 	var new v1proto.Row
@@ -704,6 +711,15 @@ func (c *VirtualTable) Update(ctx context.Context, key interface{}, values map[i
 		return fmt.Errorf("set: %w", err)
 	}
 	return nil
+}
+
+// sameKeyValue tells whether two key values are the same value of the same
+// storage class, bit for bit.
+func sameKeyValue(a, b interface{}) bool {
+	x, y := NewKey(a).SQLiteValue, NewKey(b).SQLiteValue
+	return x.Type == y.Type && x.Int == y.Int &&
+		math.Float64bits(x.Real) == math.Float64bits(y.Real) &&
+		x.Text == y.Text && bytes.Equal(x.Blob, y.Blob)
 }
 
 func (c *VirtualTable) Delete(ctx context.Context, key interface{}) error {
